@@ -57,7 +57,7 @@ func (c *Ctx) handlerMachine() *fold.Machine {
 			cl.M.Emit(fold.Effect{Kind: "call", Name: name, Args: cl.Args, Note: bounded(cl)})
 			// the copy fails with an error of the source / destination, or (CopyN) with io.EOF when the
 			// source ends before the announced length
-			return fold.Tuple{fold.Int{Lo: 0, Hi: fold.MaxInt64}, errChoice(cl.M, "copy.err", "copy-error", "global:io.EOF")}
+			return fold.Tuple{fold.Int{Lo: 0, Hi: fold.MaxInt64, Name: fmt.Sprintf("copied#%d", cl.Seq)}, errChoice(cl.M, "copy.err", "copy-error", "global:io.EOF")}
 		}
 	}
 	none := func(cl *fold.Call) string { return "" }
@@ -274,6 +274,19 @@ func handlerRules(c *Ctx, prop string) {
 				bounded = l.In == 1 && l.Off == 0 || l.IsConst() && r.in.lenCell.IsConst() && l.Const() == r.in.lenCell.Const()
 			default:
 				bounded = si.limited
+				// io.Copy from a limited reader ends silently when the source ends early: the
+				// handler must compare the copied count with the announced length itself
+				if bounded && c.errName(r.p.Ret) == "nil" && r.p.Chose("copy.err") == 0 {
+					compared := false
+					for _, ch := range r.p.Choices {
+						if strings.Contains(ch.Key, "copied#") {
+							compared = true
+						}
+					}
+					if !compared {
+						*problems = append(*problems, what+" drains the payload with "+e.Name+" from a limited reader and never looks at the count: a control frame cut inside its payload is handled as if it were complete (io.CopyN reports the early end)")
+					}
+				}
 			}
 			if !bounded {
 				*problems = append(*problems, fmt.Sprintf("%s reads the source with %s until EOF instead of exactly the announced %s bytes (what follows the control frame on the connection is consumed)", what, e.Name, "Length"))
